@@ -386,7 +386,7 @@ func (s cmap6or10) Lookup(r rune) (GID, bool) {
 	if r < s.firstCode {
 		return 0, false
 	}
-	c := int(r - s.firstCode)
+	c := int(r) - int(s.firstCode) // firstCode may be negative for an invalid format 10 subtable
 	if c >= len(s.entries) {
 		return 0, false
 	}
